@@ -11,7 +11,7 @@ ID = "C20"
 THEOREM = ("Ufo2ft.C20.C20_partial / C20_unscripted_everywhere / C20_languages / C20_kern_keys_partial / C20_dflt / "
            "C20_model_failures_shapeA_partial / C20_false_as_stated / C20_quirk_witness / C20_rejects / C20_register / "
            "C20_ds_extra_complete / C20_ds_extra / C20_ds_variable_same / C20_ds_extra_paths / C20_ds_alternate_inherits / "
-           "C20_ds_classify")
+           "C20_ds_classify / C20_merge_disjoint / C20_merge_cover")
 N = {"quick": 1200, "thorough": 12000}
 RULE = ("fonts: 1-4 scripts drawn from latn/grek/cyrl/hebr/arab/deva/beng/khmr/mymr/nko/hira+kana/thai plus common glyphs and "
         "combining marks; kerning inside scripts, across scripts, with common glyphs and with marks (some through groups); "
@@ -35,7 +35,17 @@ RULE = ("fonts: 1-4 scripts drawn from latn/grek/cyrl/hebr/arab/deva/beng/khmr/m
         "merge); observed: the compiler object's extraSubstitutions (wrapper around _pre_compile_designspace), what the feature "
         "writers RECEIVE from each feature compiler (wrapper around BaseFeatureWriter.extraSubstitutions, tagged by compiler "
         "class), util.classifyGlyphs on that mapping, and the GPOS ScriptList of each master / of the variable font. non-trivial "
-        "(designspace) = some glyph is replaced in >= 2 rules (function level), kerning and a mark feature both compiled (masters).")
+        "(designspace) = some glyph is replaced in >= 2 rules (function level), kerning and a mark feature both compiled (masters). "
+        "cross-script stream (harness/lib_C20.py, max(60, n/10) fonts + 2 corpus fonts): 3-5 scripts of ONE direction (LTR: "
+        "latn/grek/cyrl/armn/geor/thai, or RTL: hebr/arab/syrc/thaa/nko), glyph-to-glyph kerning pairs ACROSS scripts forming a chain "
+        "through all scripts (60%), a star, two components or random links, stored in RANDOM order (bucket order = order of first "
+        "occurrence), kerning inside a script only for ~30% of the scripts (so some script is kerned only against another one); "
+        "top/_top anchors everywhere; languagesystems DFLT + all / + languages / subset; the usual register/build/e2e requests plus "
+        "the predicate-only 'xkern' request on the compiled ScriptList. function level: kernFeatureWriter.mergeScripts on synthetic "
+        "kerningPerScript dicts (max(300, n/4) items: 4-8 scripts, chains of two-script buckets / random 1-3-script buckets / stars, "
+        "single-script buckets, shuffled order, now and then an empty key) against the Lean model, Spec.holdsMerge on the observed "
+        "result. non-trivial (cross-script) = kerning and a mark feature compiled and >= 3 distinct buckets (fonts); >= 3 multi-script "
+        "buckets of which some were merged (function level).")
 ASSUMED = [
     "feaLib parser/builder beyond the modelled registration logic (set_script/set_language/add_lookup_to_feature_/"
     "add_language_system/makeTable ScriptList) - measured by the 'build' stream on every generated font",
@@ -46,6 +56,9 @@ ASSUMED = [
     "designspace stream: an unencoded rule alternate belongs to the script(s) of the glyph(s) the rules replace by it (one "
     "step); generated kerning 'acts on' a script when some kerning pair has both glyphs in that script and neither is "
     "common/inherited (pairs with a common glyph on one side are not counted - see LEVEL_NOTE)",
+    "cross-script stream: generated kerning 'acts on' a script when some kerning pair between two script-specific glyphs whose "
+    "scripts all run in one horizontal direction has a glyph of that script on either side (mixed-direction pairs are dropped by "
+    "the writer by design and are not counted); directions come from fontTools.unicodedata",
 ]
 
 DFLT = "DFLT"
@@ -379,10 +392,15 @@ def gen(rng, n, mode):
         yield c
     for c in lib_C20.corpus_ds():
         yield c
+    for c in lib_C20.corpus_xfont():
+        yield c
     for i in range(n):
         yield gen_font(rng, mode)
     for i in range(max(40, n // 12)):
         yield lib_C20.gen_ds(rng, mode, BASES, MARKS, OTTAGS)
+    for i in range(max(60, n // 10)):
+        yield lib_C20.gen_xfont(rng, mode)
+    yield {"kind": "merge", "items": [lib_C20.gen_merge(rng, mode) for _ in range(max(300, n // 4))]}
     m = max(4, n // 60)
     for i in range(m):
         yield {"kind": "register", "items": [gen_register(rng, mode) for _ in range(150)]}
@@ -732,6 +750,10 @@ def run(case):
         return run_font(case)
     if case["kind"] == "ds":
         return lib_C20.run_ds(case, glyph_scripts)
+    if case["kind"] == "xfont":
+        return lib_C20.run_xfont(case, run_font, glyph_scripts)
+    if case["kind"] == "merge":
+        return [lib_C20.run_merge(it) for it in case["items"]]
     if case["kind"] == "register":
         return [run_register(it) for it in case["items"]]
     return [run_addrefs(it) for it in case["items"]]
@@ -743,8 +765,12 @@ def agree(req, rep):
         return m == o
     if req["op"] in ("extrasubs", "classify"):
         return lib_C20.canon_map(m) == o
-    if req["op"] == "ds":
-        return True          # predicate-only stream
+    if req["op"] in ("ds", "xkern"):
+        return True          # predicate-only streams
+    if req["op"] == "merge":
+        if m.get("err") is not None or o.get("err") is not None:
+            return m.get("err") == o.get("err")
+        return lib_C20.canon_buckets(m["buckets"]) == lib_C20.canon_buckets(o["buckets"])
     if m.get("err") is not None or o.get("err") is not None:
         return m.get("err") == o.get("err")
     if req["op"] == "register":
@@ -795,7 +821,7 @@ def shrink(case):
                     c["rules"] = case["rules"][:i] + [dict(ru, subs=ru["subs"][:j] + ru["subs"][j + 1:])] + case["rules"][i + 1:]
                     yield c
         return
-    if case["kind"] != "font":
+    if case["kind"] not in ("font", "xfont"):
         for it in case["items"]:
             yield {"kind": case["kind"], "items": [it]}
         return
@@ -837,7 +863,12 @@ LEVEL_TEXT = ("Proved for all inputs (Lean, no size bound) about the model of fe
               "compiled once) yields the same mapping, so on either path the writers receive a mapping satisfying the requirement "
               "(C20_ds_variable_same / C20_ds_extra_paths); after classifyGlyphs' extra_substitutions step every rule alternate "
               "of a member of a script's glyph set is in that set, nothing being lost (C20_ds_alternate_inherits / "
-              "C20_ds_classify); these functions are compared with the code on every generated designspace.")
+              "C20_ds_classify); these functions are compared with the code on every generated designspace. Cross-script kerning buckets "
+              "(kernFeatureWriter.mergeScripts, modelled with its two nested loops; proved for all bucket lists): the merged "
+              "buckets are pairwise disjoint - the model's fuel for `while merged`, the number of buckets, always suffices since a "
+              "merging pass shortens the list - (C20_merge_disjoint) and every non-empty input bucket key is contained in one merged "
+              "bucket (C20_merge_cover), so a script's pairs cannot be re-assigned to another bucket leaving its own lookup empty; "
+              "the model (buckets and re-assigned pairs) is compared with the code on synthetic dicts in every run.")
 LEVEL_NOTE = ("The unconditional property is false of the unchanged tree (known finding, two shapes, recognised by "
               "classify_failure from the Lean predicates shapeA/shapeB evaluated on the observed table; any other failing entry - "
               "a declared language system lacking a generated feature, DFLT lacking one while declared, a declared language "
@@ -857,4 +888,12 @@ LEVEL_NOTE = ("The unconditional property is false of the unchanged tree (known 
               "on the variable font built by compileVariableTTF/CFF2 (both the compiled-once and the per-master fallback); before "
               "/repo f968433 the compiled-once path handed the writers no mapping (known_findings: fixed), which this stream "
               "reports as a VIOLATION at function level (writers' mapping) and on the ScriptList. Feature variations (rvrn) and "
-              "several variable fonts per designspace (v5 splitting) are not generated.")
+              "several variable fonts per designspace (v5 splitting) are not generated. "
+              "Cross-script stream: Spec.holdsX (a language system present through a generated mark/mkmk/abvm/blwm/curs feature "
+              "exposes kern or dist when a same-direction kerning pair between script-specific glyphs involves a glyph of its script, "
+              "also when the script is kerned ONLY against other scripts) is predicate-only: evaluated by the Lean driver on the "
+              "observed ScriptList of each generated font (agree = True); the link between mergeScripts' buckets and the compiled "
+              "ScriptList (splitKerning, lookup building, removal of empty lookups) is not modelled - the re-assignment half of "
+              "mergeScripts is modelled and compared but only holdsMerge (disjoint, input keys and pairs inside one bucket, pairs a "
+              "permutation) is evaluated on it, not proved of it. Of the dist-enabled scripts only Nkoo (RTL pool) is generated in this stream, class kerning is not "
+              "(both are in the main font stream, with at most one cross-script pair).")
